@@ -264,6 +264,12 @@ func (e *CEnv) binary(n *EBinary) Val {
 					e.fail("comparison of %s and %s", a.T, b.T)
 				}
 				eq = c.Eq(a.Tm, b.Tm)
+				if bw, ok := e.ex.W.BridgeWidth(a.T); ok && a.Tm.Sort == smt.Int && bvShaped(a.Tm) && bvShaped(b.Tm) {
+					if bw2, ok2 := e.ex.W.BridgeWidth(b.T); ok2 && bw2 == bw {
+						// two values of a `bvtype` type (no arithmetic on either side): compared as bit-vectors
+						eq = c.Eq(e.ex.bvOf(a.Tm, bw), e.ex.bvOf(b.Tm, bw))
+					}
+				}
 			}
 		}
 		if n.Op == "!=" {
@@ -884,6 +890,9 @@ func (e *CEnv) call(n *ECall) Val {
 			}
 			bs := smt.BVSort(w)
 			x := c.App(fmt.Sprintf("(_ int2bv %d)", w), bs, m.Tm)
+			if bw, ok := e.ex.W.BridgeWidth(m.T); ok && bw == w {
+				x = e.ex.bvOf(m.Tm, w)
+			}
 			ex := c.App(fmt.Sprintf("(_ extract %d %d)", kv.Int64(), kv.Int64()), smt.BVSort(1), x)
 			return Val{T: tBool, Tm: c.Eq(ex, c.BVLit(1, 1))}
 		case "boxed": // boxed(x): the interface value holding x
@@ -1023,6 +1032,18 @@ func (e *CEnv) applyPred(pd *PredDecl, args []Expr) Val {
 	}
 	if pd.Kind == "rec" {
 		return e.applyRec(pd, args)
+	}
+	if pd.Kind == "ghost" {
+		s := e.sub()
+		e.enterPredPkg(s, pd)
+		resT := s.specType(pd.ResType)
+		v := e.eval(args[0])
+		ref := v.Tm
+		if ref == nil {
+			ref = e.ex.ptrTerm(v)
+		}
+		k := e.ex.ghostKey(pd.Name, resT)
+		return Val{T: resT, Tm: e.ex.W.C.Select(e.ex.heapGet(e.st, k), ref)}
 	}
 	if pd.Kind == "ufun" {
 		s := e.sub()
@@ -1251,4 +1272,28 @@ func (e *CEnv) applyRec(pd *PredDecl, args []Expr) Val {
 		ex.recReads[name] = reads
 	}
 	return Val{T: resT, Tm: c.App(name, resSort, argTerms()...)}
+}
+
+// bvShaped: the integer term denotes a value of an unsigned machine type without any specification-level
+// arithmetic on top (a stored value, a bit operation result, a literal, or a choice between such).
+func bvShaped(t *smt.Term) bool {
+	switch t.Kind {
+	case smt.KLit:
+		n, ok := t.IntVal()
+		return ok && n.Sign() >= 0
+	case smt.KConst, smt.KVar:
+		return true
+	case smt.KApp:
+		switch t.Op {
+		case "bv2nat", "select":
+			return true
+		case "ite":
+			return bvShaped(t.Args[1]) && bvShaped(t.Args[2])
+		case "+", "-", "*", "div", "mod", "to_int":
+			return false
+		}
+		// datatype selectors and uninterpreted functions
+		return len(t.Args) <= 1 || strings.HasPrefix(t.Op, "uf_")
+	}
+	return false
 }
